@@ -19,6 +19,8 @@ func propC20(r *Report, tier string) {
 	ruleNestedSelection(r, "K5-nested-selection")
 	ruleNestedAdvanceBuffered(r, "K12-nested-advance-buffered")
 	ruleCompoundSwitchCoverage(r, "K13-compound-coverage")
+	ruleNestedDepthCarriedByRecursion(r, "K5dep-nested-depth-carried")
+	ruleAccumulatingWalkVisitsWholeTree(r, "K13-accumulating-walk-whole-tree", "search/query")
 	rulePivotFixedDuringAlignment(r, "K14-pivot-fixed-during-alignment")
 	ruleNestedAdvanceTargetsJoinLevel(r, "K5dep-nested-advance-join-level")
 	ruleParallelSlotsUpdatedTogether(r, "K14-parallel-slots", "search/searcher", "NestedConjunctionSearcher", "currs", []string{"currAncestors", "currKeys"})
